@@ -123,6 +123,35 @@ def attr_values(x):
     return out
 
 
+def id_lists(x):
+    """identities of the mutable (list-valued) rank ids held by the attribute objects of x"""
+    from fibertree import Tensor, Fiber
+    out = set()
+
+    def att(a):
+        if isinstance(getattr(a, "_id", None), list):
+            out.add(id(a._id))
+            KEEP.append(a._id)
+
+    def walk(f):
+        att(f._rank_attrs)
+        if f._owner is not None:
+            att(f._owner._attrs)
+        for p in f.payloads:
+            if isinstance(p, Fiber):
+                walk(p)
+    if isinstance(x, Tensor):
+        walk(x.getRoot())
+        for r in x.ranks:
+            att(r._attrs)
+    else:
+        walk(x)
+    return out
+
+
+KEEP = []
+
+
 # ---- follow-up mutations: touch every mutable fiber and box reachable from one side
 
 def _bump_coord(c, k):
